@@ -283,6 +283,17 @@ def async_seq_closure(text, **_):
     return text, len(cuts)
 
 
+@rule('c24-no-async-left')
+def c24_no_async_left(text, **_):
+    """check only (changes nothing): after the async-seq rules no `async` / `.await` is left in the item — every suspension point and every
+    async block of the text has been given its sequential meaning by a named rule."""
+    toks = L.code_tokens(text)
+    for t in toks:
+        if t[0] == 'ident' and L.tok_text(text, t) in ('async', 'await'):
+            raise Undecided('c24-no-async-left: `%s` remains at offset %d' % (L.tok_text(text, t), t[1]))
+    return text, 1
+
+
 @rule('async-seq-future-param')
 def async_seq_future_param(text, **_):
     """async-seq (a4): `fn f<F, Fut>(..) where F: FnOnce(A) -> Fut + B, Fut: Future<Output = T> + B'` -> `fn f<F>(..) where
@@ -300,19 +311,23 @@ def async_seq_future_param(text, **_):
 
 
 @rule('c24-shared-state')
-def c24_shared_state(text, calls=(), **_):
+def c24_shared_state(text, calls=(), callees=(), **_):
     """state-passing form of the state shared behind `&self` (same technique as c36_channel's `async-seq-chan`): the log of the client
     connection's channel and the contents of the `cancellations` mutex become the explicit ghost parameter `st`. `st` is appended to
-    the method calls `V.m(..)` for the listed (V, m) pairs — V is the last identifier of the receiver path — and to nothing else."""
+    the method calls `V.m(..)` for the listed (V, m) pairs — V is the last identifier of the receiver path —, to the calls of the
+    listed free fns `callees`, and to nothing else."""
     n = 0
     while True:
         toks = L.code_tokens(text)
         T = _T(text, toks)
         hit = None
         for i in range(2, len(toks) - 1):
-            if toks[i][0] != 'ident' or T(i + 1) != '(' or T(i - 1) != '.':
+            if toks[i][0] != 'ident' or T(i + 1) != '(':
                 continue
-            if (T(i - 2), T(i)) not in calls:
+            if T(i - 1) == '.':
+                if (T(i - 2), T(i)) not in calls:
+                    continue
+            elif not (T(i) in callees and T(i - 1) not in ('fn', ':')):
                 continue
             c = L.match_close(text, toks, i + 1)
             if T(c - 1) == 'st':
@@ -342,6 +357,19 @@ def c24_ghost_param(text, **_):
     else:
         new = 'st: &mut Shared'
     return text[:a + 1] + new + text[b - 1:], 1
+
+
+@rule('c24-json-opaque')
+def c24_json_opaque(text, **_):
+    """`serde_json::json!({ .. })` -> `vx_json_value()`: the VALUE of the initialize result (capabilities, server name and version) is
+    opaque; building it from Serialize values that serde_json can represent does not panic (the same value is built on every start)."""
+    toks = L.code_tokens(text)
+    T = _T(text, toks)
+    for i in range(len(toks) - 5):
+        if T(i) == 'serde_json' and T(i + 1) == ':' and T(i + 2) == ':' and T(i + 3) == 'json' and T(i + 4) == '!' and T(i + 5) == '(':
+            c = L.match_close(text, toks, i + 5)
+            return text[:toks[i][1]] + 'vx_json_value()' + text[toks[c][2]:], 1
+    return text, 0
 
 
 # ---------------------------------------------------------------------------------------------
@@ -429,8 +457,7 @@ DISPATCH = {
     'src': {'kind': 'slice', 'name': 'on_request_handler', 'in': {'file': RH, 'kind': 'macro_rules', 'name': '!'},
             'from': r'\Amacro_rules!\s*dispatch_request\b', 'to': r'\}\s*\Z', 'head': _HEAD, 'tail': _BODY},
     'rules': ['c24-macro-expand', 'c24-match-const-chain',
-              'async-seq-fn', ('async-seq-await', {'count': N}), ('async-seq-closure', {'count': N}),
-              ('c24-closure-contract', {'count': N}),
+              'async-seq-fn', 'async-seq-await', 'async-seq-closure', 'c24-no-async-left', 'c24-closure-contract',
               ('c24-shared-state', {'calls': (('server_context', 'task'), ('server_context', 'send'))}),
               'c24-ghost-param', 'c24-error-type-opaque', 'c24-log-drop'],
     'attrs': SPIN,
@@ -442,12 +469,14 @@ DISPATCH = {
             // a registered method whose params deserialize: the log grew by exactly one response, carrying req.id (the handler's
             // result, or RequestCanceled when the token was cancelled)
             route(req) == Route::Known(true) ==> one_response(&*old(st), &*final(st), req.id) /*@C24.dispatch.exactly-one-response*/,
+            // ... and a registered method is never answered "method not found"
+            route(req) is Known ==> !one_error(&*old(st), &*final(st), req.id, ErrorCode::MethodNotFound as i32) /*@C24.dispatch.registered-method-routed*/,
             // a method that is not in the table: exactly one response, the MethodNotFound error for req.id
             route(req) is Unknown ==> one_error(&*old(st), &*final(st), req.id, ErrorCode::MethodNotFound as i32) /*@C24.dispatch.unknown-method-answered*/,
             // a registered method whose params are MALFORMED or MISSING: exactly one response for req.id, an error
             route(req) == Route::Known(false) ==> one_response(&*old(st), &*final(st), req.id) && last_is_error(&*final(st)) /*@C24.dispatch.malformed-params-answered*/,
-            // bookkeeping: no cancellation entry is left behind for this request; the others are untouched
-            final(st).cancellations@ =~= old(st).cancellations@.remove(req.id) /*@C24.dispatch.cancellation-entry-removed*/,
+            // bookkeeping: the task's cancellation entry is gone when the response is out; every other entry is untouched
+            final(st).cancellations@ =~= (if route(req) == Route::Known(true) { old(st).cancellations@.remove(req.id) } else { old(st).cancellations@ }) /*@C24.dispatch.cancellation-entry-removed*/,
             same_ids(&*old(st), &*final(st)), ctx_wf(&*final(server_context), &*final(st))''',
 }
 
@@ -455,7 +484,7 @@ TASK = {
     'src': {'file': CTX, 'kind': 'fn', 'impl': 'ServerContext', 'name': 'task'},
     'rules': ['async-seq-fn', 'async-seq-future-param', ('async-seq-await', {'count': 3}), ('async-seq-spawn', {'count': 1}),
               ('c24-shared-state', {'calls': (('cancellations', 'insert'), ('cancellations', 'remove'), ('sender', 'send'))}),
-              'c24-ghost-param'],
+              'c24-no-async-left', 'c24-ghost-param'],
     'attrs': SPIN,
     'requires': '''
             ctx_wf(self, &*old(st)),
@@ -473,7 +502,7 @@ TASK = {
 
 SEND = {
     'src': {'file': CTX, 'kind': 'fn', 'impl': 'ServerContext', 'name': 'send'},
-    'rules': [('c24-shared-state', {'calls': (('sender', 'send'),)}), 'c24-ghost-param'],
+    'rules': [('c24-shared-state', {'calls': (('sender', 'send'),), 'optional': True}), 'c24-ghost-param'],
     'requires': 'ctx_wf(self, &*old(st))',
     'ensures': '''
             final(st).sent@ == old(st).sent@.push(Message::Response(response)) /*@C24.send.exactly-one-send*/,
@@ -483,12 +512,59 @@ SEND = {
 CANCEL = {
     'src': {'file': CTX, 'kind': 'fn', 'impl': 'ServerContext', 'name': 'cancel'},
     'rules': ['async-seq-fn', ('async-seq-await', {'count': 1}),
-              ('c24-shared-state', {'calls': (('cancellations', 'get'),)}), 'c24-ghost-param'],
+              ('c24-shared-state', {'calls': (('cancellations', 'get'), ('sender', 'send'))}), 'c24-no-async-left', 'c24-ghost-param'],
     'requires': 'ctx_wf(self, &*old(st))',
     'ensures': '''
             // `$/cancelRequest` itself answers nothing (the cancelled task does: C24.task.exactly-one-send) and forgets nothing
             final(st).sent == old(st).sent /*@C24.cancel.sends-nothing*/,
             final(st).cancellations == old(st).cancellations, same_ids(&*old(st), &*final(st))''',
+}
+
+_RUN_LS = X.find_item(REPO, {'file': SRV, 'kind': 'fn', 'name': 'run_ls'}).raw
+INITIALIZE = {
+    'src': {'kind': 'slice', 'name': 'run_ls_initialize', 'in': {'file': SRV, 'kind': 'fn', 'name': 'run_ls'},
+            # the handshake: from the first statement that deals with the `initialize` request to `initialize_finish`
+            'from': r'let \(id, params\) = connection\.initialize_start\(\)\?;',
+            'to': r'connection\.initialize_finish\(id, initialize_data\)\?;',
+            'head': 'pub fn run_ls_initialize(connection: Connection, st: &mut Shared) -> Result<(), BoxedError>', 'tail': 'Ok(())'},
+    'rules': [('c24-shared-state', {'calls': (('connection', 'initialize_start'), ('connection', 'initialize_finish'), ('sender', 'send')),
+                                    'optional': True}),
+              'c24-json-opaque', ('c24-format-opaque', {'optional': True}), ('c24-label-init-unwrap', {'optional': True})],
+    'attrs': SPIN + '\n#[verifier::exec_allows_no_decreases_clause]',
+    'ret': 'r',
+    'requires': 'connection.sender.chan() == old(st).chan@',
+    'ensures': '''
+            // every `initialize` request handed out by the connection got exactly one response from this code, in order: a
+            // malformed one its error, the well-formed one the InitializeResult (sent by initialize_finish)
+            init_answered(&*old(st), &*final(st), false) /*@C24.initialize.exactly-one-response*/,
+            r is Ok ==> final(st).sent@.len() > old(st).sent@.len()
+                && (final(st).sent@.last() matches Message::Response(x) && x.error is None) /*@C24.initialize.handshake-completes*/''',
+}
+if re.search(r'while\s+initialize\.is_none\(\)', _RUN_LS):
+    # the repaired shape (proposed_fix_initialize_params.diff): a loop that answers malformed `initialize` requests and waits for the next
+    INITIALIZE['src']['from'] = r'let mut initialize = None;'
+    INITIALIZE['loops'] = {0: '''invariant
+                connection.sender.chan() == st.chan@, same_ids_but_init(&*old(st), &*st),
+                init_answered(&*old(st), &*st, initialize is Some) /*@C24.initialize.exactly-one-response.inv*/,
+                forall|x: (RequestId, InitializeParams)| initialize == Some(x) ==> st.init@.last() == x.0,'''}
+
+HANDLE_MESSAGE = {
+    'src': {'file': MP, 'kind': 'fn', 'impl': 'ServerMessageProcessor', 'name': 'handle_message'},
+    'rules': ['async-seq-fn', ('async-seq-await', {'count': 5}), 'c24-no-async-left',
+              ('c24-shared-state', {'calls': (('connection', 'handle_shutdown'),),
+                                    'callees': ('on_request_handler', 'on_notification_handler', 'on_response_handler')}),
+              'c24-ghost-param', 'c24-error-type-opaque'],
+    'attrs': SPIN,
+    'ret': 'r',
+    'requires': 'ctx_wf(&*old(server_context), &*old(st))',
+    'ensures': '''
+            // a request other than `shutdown`: the main loop goes on (`run` leaves its loop on Ok(true) and ends the server with `?` on Err)
+            (match msg { Message::Request(req) => req.method@ != "shutdown"@ ==> (r matches Ok(stop) && !stop), _ => true }) /*@C24.loop.keeps-serving*/,
+            // ... and it is answered as the dispatcher answers it
+            (match msg { Message::Request(req) => req.method@ != "shutdown"@ ==> answered(req, &*old(st), &*final(st)), _ => true }) /*@C24.loop.request-answered-once*/,
+            // `shutdown`: its one response (sent by handle_shutdown), then the server stops, as requested
+            (match msg { Message::Request(req) => req.method@ == "shutdown"@ ==> one_response(&*old(st), &*final(st), req.id) && !(r matches Ok(false)),
+                         _ => true }) /*@C24.loop.shutdown-answered-once*/''',
 }
 
 UNIT = {
@@ -500,12 +576,19 @@ UNIT = {
         'ServerContext::task': TASK,
         'ServerContext::cancel': CANCEL,
         'on_request_handler': DISPATCH,
+        'run_ls::initialize': INITIALIZE,
+        'ServerMessageProcessor::handle_message': HANDLE_MESSAGE,
     },
     'extra_rules': [
         ('c24-closure-contract', r'\|cancel_token\| \{',
          '|cancel_token: CancellationToken| -> (r: Option<Response>) ensures r matches Some(x) && x.id == id && x.error is None {',
          'contract overlay on the task closure (one per table entry): parameter type, named result and `ensures` are added, the body is kept '
          'verbatim and Verus checks the ensures against it'),
+        ('c24-format-opaque', r'format!\("(?:[^"\\]|\\.)*"\)', 'vx_format()',
+         '`format!("..{err}..")` -> `vx_format()`: the message TEXT of an error response is opaque (Display of a serde_json::Error does not panic)'),
+        ('c24-label-init-unwrap', r'(serde_json::from_value\(params\)\.unwrap\(\);)', r'\1 /*@C24.initialize.exactly-one-response*/',
+         'label only (a comment): the precondition of this `unwrap` is the property clause — a panic here ends the server before the '
+         '`initialize` request got any response'),
         ('c24-error-type-opaque', r'Box<dyn Error \+ Sync \+ Send>', 'BoxedError',
          '`Box<dyn Error + Sync + Send>` -> `BoxedError` in a signature: the error VALUE is opaque, only Ok / Err is under contract'),
         ('c24-log-drop', r'\n[ \t]*error!\((?:[^()"]|"(?:[^"\\]|\\.)*"|\((?:[^()"]|"(?:[^"\\]|\\.)*")*\))*\);', '',
@@ -513,9 +596,105 @@ UNIT = {
          'line to the logger; no part of any claimed clause'),
     ],
     'allow': [r'external_body', r'uninterp'],
-    'min_obligations': 12,
-    'trusted': [],
-    'not_covered': [],
-    'mutants': [],
+    'min_obligations': 40,
+    'trusted': [
+        'rule family async-seq = the SEQUENTIAL SCHEDULE of the async text (rules async-seq-fn / -await / -spawn are unit c36_channel\'s, loaded from its '
+        'unit.py; -closure and -future-param are this unit\'s): `async fn` / `.await` are plain fns / calls; `tokio::spawn(async move { BODY })` runs BODY '
+        'to completion, exactly once, at the spawn point; a closure returning an async block returns the block\'s value. ABSTRACTED AWAY: scheduling and '
+        'interleaving; a task that PANICS (a panicking handler, or `serde_json::to_value(result).unwrap()` inside Response::new_ok) dies without sending '
+        'anything — that request id gets no response (C25 / C12 territory); a task that is never polled (runtime shutdown); mutex contention',
+        'the cancellation flag is modelled as ARBITRARY: CancellationToken::is_cancelled returns an unconstrained bool (a `$/cancelRequest` may be handled '
+        'at any time while the task runs); `task` is proved to send exactly one response whatever it returns',
+        'state-passing model (rules c24-shared-state / c24-ghost-param): the log `st.sent` records every message handed to a Sender of the client '
+        'connection\'s channel BY THE CODE UNDER PROOF (and by lsp_server\'s initialize_finish / handle_shutdown on its behalf); crossbeam `send` = append '
+        '(its Err, writer thread gone, is discarded by the callers); the contents of the `cancellations` tokio Mutex = `st.cancellations`, reached through '
+        'the guard (DerefMut) with HashMap insert / remove / get semantics; precondition ctx_wf: the context\'s sender and mutex ARE the ones `st` describes '
+        '(ServerContext::new builds them so; Arc::clone / Sender::clone keep the identity)',
+        'lsp_server 0.7.9 shims, transcribed from its source: Request / Response / ResponseError / Notification / Message as data, ErrorCode discriminants, '
+        'Response::new_err (body verified), Response::new_ok (result Some, error None; its unwrap not modelled), Request::extract (Ok iff method matches and '
+        'the params deserialize, the id is the request\'s; MethodMismatch(req) / JsonError otherwise), Connection::initialize_start (hands out the next '
+        '`initialize` request; the ServerNotInitialized replies it sends ITSELF to earlier requests are the library\'s and are not logged), '
+        'Connection::initialize_finish (sends new_ok(id, result) once, then waits for `initialized`)',
+        '`deserializes::<P>(v)` (= serde_json::from_value::<P>(v) is Ok) is uninterpreted: nothing is assumed about which JSON values deserialize',
+        'the routing table (request type => handler) is READ from the invocation in the repository at load time; per entry the unit generates an opaque '
+        'parameter / result type, the METHOD string (transcribed from the `impl Request for T` in emmy_lsp_types 0.1.0 / the repository) and ONE handler shim '
+        'shape `h(snapshot, params, token) -> result` without contract; "registered method" = a method of this table (the spec fn `route` is generated from it, '
+        'first match wins as in the code). METHOD strings are not assumed distinct',
+        'macro expansion: rule c24-macro-expand implements macro_rules transcription for the single-rule, one-level-repetition shape of dispatch_request! '
+        '(see its doc string); it is not rustc\'s expander. Cross-check: the END-TO-END replay (replay/c24) observes the same behaviour on the compiled server',
+        'AsyncConnection::handle_shutdown is a SHIM in handle_message (contract written from its text: nothing sent and Ok(false) unless the method is '
+        '`shutdown`; otherwise one new_ok response for req.id and Ok(true) / Err); ServerContext::close, on_notification_handler, on_response_handler: opaque',
+        'initialize slice: serde_json::json!(..) and format!(..) values are opaque (rules c24-json-opaque / c24-format-opaque); server_capabilities(..) is an opaque shim',
+        'error values (`Box<dyn Error + Sync + Send>`, ProtocolError) are opaque; only Ok / Err is under contract (rule c24-error-type-opaque)',
+        '`error!(..)` log lines dropped (rule c24-log-drop); vstd: String::as_str / str equality / to_string, Option, Result::unwrap (requires Ok), Arc',
+    ],
+    'not_covered': [
+        'real tokio scheduling: interleavings of the request tasks with the main loop, duplicate request ids in flight (the second task\'s token replaces the '
+        'first in `cancellations`), back-pressure; the transport (reader / writer threads, framing, flushing)',
+        'a handler that panics: its task dies without a response for that id (C25 / C12); the `None` (InternalError) branch of `task` is proved but is '
+        'unreachable from the dispatcher (its closure always returns Some)',
+        'notifications (on_notification_handler, incl. routing of `$/cancelRequest` to ServerContext::cancel) and client responses (on_response_handler)',
+        'the main loop around handle_message (LspServer::run / wait_for_initialization / process_pending_messages): by reading, `?` on an Err of '
+        'handle_message ends `run`, hence the server; Ok(false) continues; requests that arrive during initialization are queued and dispatched afterwards',
+        'AsyncConnection::handle_shutdown\'s own text (tokio::time::timeout, match guards, boxed ExitError): shimmed, see trusted',
+        'run_ls outside the handshake slice (transport selection, main_loop, threads.join)',
+    ],
+    'samples': [
+        'on_request_handler(req): returns Ok(()) always; route(req)==Known(true) -> log grew by exactly one Response with id req.id, never MethodNotFound; '
+        'route(req)==Unknown -> exactly one Response{id: req.id, error.code: -32601}; route(req)==Known(false) -> exactly one error Response for req.id '
+        '[FAILS on the unrepaired tree: nothing is sent]',
+        'ServerContext::task(req_id, exec): log grew by exactly one Response for req_id: RequestCanceled | InternalError | exec\'s response; cancellations == old.remove(req_id)',
+        'ServerContext::cancel: sends nothing, forgets nothing; ServerContext::send: exactly the given response',
+        'run_ls handshake: every initialize id handed out by the connection is answered exactly once, in order [unrepaired tree: `from_value(params).unwrap()` '
+        'panics on params that do not deserialize -> no response, server dead]',
+        'handle_message(Request(req)), req.method != "shutdown": Ok(false) (loop goes on) and `answered(req, ..)`; "shutdown": one response, not Ok(false)',
+    ],
+    'mutants': [
+        {'name': 'unknown-method-not-answered', 'item': 'on_request_handler',
+         'pattern': r'("handler not found"\.to_string\(\),\s*\);\s*)\$context\.send\(response\);', 'repl': r'\1',
+         'expect': r'C24\.dispatch\.unknown-method-answered'},
+        {'name': 'table-entry-dropped', 'item': 'on_request_handler',
+         'pattern': r'HoverRequest => on_hover,', 'repl': '',
+         # (METHOD strings are not known to be distinct, so the edit also shows as a hover request served by another entry's parameter type)
+         'expect': r'C24\.dispatch\.(registered-method-routed|cancellation-entry-removed)'},
+        {'name': 'task-sends-cancel-error-and-result', 'item': 'ServerContext::task',
+         'pattern': r'\} else if let Some\(it\) = res \{', 'repl': '} if let Some(it) = res {', 'expect': r'C24\.task\.exactly-one-send'},
+        {'name': 'task-silent-on-none', 'item': 'ServerContext::task',
+         'pattern': r'("internal error"\.to_string\(\),\s*\);\s*)let _ = sender\.send\(Message::Response\(response\)\);', 'repl': r'\1',
+         'expect': r'C24\.task\.exactly-one-send'},
+        {'name': 'task-entry-not-removed', 'item': 'ServerContext::task',
+         'pattern': r'\n\s*cancellations\.remove\(&req_id\);', 'repl': '', 'expect': r'C24\.task\.cancellation-entry-removed'},
+        {'name': 'send-dropped', 'item': 'ServerContext::send',
+         'pattern': r'let _ = self\.conn\.sender\.send\(Message::Response\(response\)\);', 'repl': '', 'expect': r'C24\.send\.exactly-one-send'},
+        {'name': 'cancel-answers-itself', 'item': 'ServerContext::cancel',
+         'pattern': r'cancel_token\.cancel\(\);',
+         'repl': 'cancel_token.cancel(); let _ = self.conn.sender.send(Message::Response(Response::new_err(req_id.clone(), ErrorCode::RequestCanceled as i32, "cancel".to_string())));',
+         'expect': r'C24\.cancel\.sends-nothing'},
+        {'name': 'loop-stops-after-request', 'item': 'ServerMessageProcessor::handle_message',
+         'pattern': r'Ok\(false\)\s*\}\s*$', 'repl': 'Ok(true)\n}', 'expect': r'C24\.loop\.keeps-serving'},
+    ],
+    # an edit that changes NOTHING (run by hand, must verify): `return Ok(());` removed from the arms' success path. A Rust match arm never
+    # falls through into the next arm (the catch-all included): control leaves the `match`, reaches the fn's final `Ok(())` and returns the
+    # same value; no second response can be sent on that way.
+    'equivalent_edits': [
+        {'name': 'arm-return-removed', 'item': 'on_request_handler', 'pattern': r'(\}\)\.await;\s*)return Ok\(\(\)\);', 'repl': r'\1'},
+    ],
 }
+_MACRO = X.find_item(REPO, {'file': RH, 'kind': 'macro_rules', 'name': '!'}).raw
+if 'InvalidParams' in _MACRO:
+    # mutants of the REPAIRED dispatcher (proposed_fix_invalid_params.diff); on the unrepaired tree the clause fails without any edit
+    UNIT['mutants'].append(
+        {'name': 'invalid-params-answer-dropped', 'item': 'on_request_handler',
+         'pattern': r'("invalid params"\.to_string\(\),\s*\);\s*)\$context\.send\(response\);', 'repl': r'\1',
+         'expect': r'C24\.dispatch\.malformed-params-answered'})
+if 'loops' in INITIALIZE:
+    UNIT['mutants'].append(
+        {'name': 'malformed-initialize-not-answered', 'item': 'run_ls::initialize',
+         'pattern': r'let _ = connection\.sender\.send\(response\.into\(\)\);', 'repl': '',
+         'expect': r'C24\.initialize\.exactly-one-response'})
+    UNIT['mutants'].append(
+        {'name': 'initialize-answered-twice', 'item': 'run_ls::initialize',
+         'pattern': r'Ok\(initialization_params\) => initialize = Some\(\(id, initialization_params\)\),',
+         'repl': 'Ok(initialization_params) => { let _ = connection.sender.send(Response::new_ok(id.clone(), 0u8).into()); initialize = Some((id, initialization_params)) }',
+         'expect': r'C24\.initialize\.exactly-one-response'})
 UNIT['template_text'] = _template()
